@@ -18,7 +18,7 @@ RULE = ("Hypothesis draws a source set over a hostile name alphabet (Python keyw
         "imports, leading digits/underscores, dots and dashes, non-ASCII letters, names that collide after case conversion, "
         "70-character names; hostile enumeration values) in three families - XML Schemas of the full SchemaSpec fragment, sets of "
         "1-3 irregular well-formed XML samples, sets of 1-2 irregular JSON samples - and a point of the whole output-option space "
-        "(structure style, compound fields incl. forced default name, wrapper fields, unnest, frozen/slots/eq/order/kw_only/"
+        "(structure style, compound fields incl. forced default name, wrapper fields, unnest, frozen/slots/eq/order/"
         "unsafe_hash/repr, docstring style, naming case and safe prefix for classes/fields/constants/modules/packages, relative "
         "imports, generic collections, line length, header). Oracles: generation ends in success or in xsdata's own CodegenError; "
         "every generated module imports; every generated dataclass yields binding metadata (XmlContext.build) and can be "
@@ -91,7 +91,6 @@ def options(draw):
     o["format.order"] = eq and draw(st.booleans())
     o["format.frozen"] = draw(st.booleans())
     o["format.slots"] = draw(st.booleans())
-    o["format.kw_only"] = draw(st.booleans())
     o["format.repr"] = draw(st.booleans())
     o["format.unsafe_hash"] = draw(st.booleans())
     if draw(st.booleans()):
